@@ -2,7 +2,7 @@
    Only statements; every proof is `exact <lemma>` into Proofs/EqFacts.v. *)
 From Coq Require Import String List ZArith QArith Bool.
 From BB Require Import Base.Names Base.Num Base.PyList Model.Types Model.Blueprint Model.Forge Model.Element
-  Model.PyVal Model.Sequence Model.Descr Proofs.BlueprintFacts Proofs.EqFacts.
+  Model.PyVal Model.Sequence Model.Descr Proofs.BlueprintFacts Proofs.EqFacts Proofs.SeqEqFacts.
 Import ListNotations.
 
 (* == compares every component: names, functions, arguments, durations, absolute and segment-bound markers *)
@@ -72,6 +72,18 @@ Proof. exact seq_eq_components. Qed.
 Theorem C20_sqing_eq : forall q q', sqing_eqb q q' = true <-> q = q'.
 Proof. exact sqing_eq_iff. Qed.
 
+(* ... and equal data: the same positions, holding entries that compare equal; a position filled on one side only
+   makes the sequences unequal *)
+Theorem C20_seq_eq_data : forall a b,
+  seq_eqb a b = Ok true ->
+  Nat.eqb (length (sdata a)) (length (sdata b)) = true /\
+  forall p x, In (p, x) (sdata a) -> exists y, alookup Z.eqb p (sdata b) = Some y /\ entry_eqb x y = Ok true.
+Proof. exact seq_eq_data. Qed.
+
+Theorem C20_seq_eq_missing_position : forall a b p x,
+  In (p, x) (sdata a) -> alookup Z.eqb p (sdata b) = None -> seq_eqb a b <> Ok true.
+Proof. exact seq_eq_missing_position. Qed.
+
 Print Assumptions C20_bp_eq_iff.
 Print Assumptions C20_bp_differs.
 Print Assumptions C20_bp_eq_descr.
@@ -83,3 +95,5 @@ Print Assumptions C20_el_eq.
 Print Assumptions C20_el_eq_refl.
 Print Assumptions C20_seq_eq_components.
 Print Assumptions C20_sqing_eq.
+Print Assumptions C20_seq_eq_data.
+Print Assumptions C20_seq_eq_missing_position.
